@@ -2041,6 +2041,9 @@ extern int32_t tls13NewTicket(ssl_t *ssl,
         unsigned char **ticketOut,
         psSizeL_t *ticketOutLen);
 # if defined(USE_SERVER_SIDE_SSL) && defined(USE_STATELESS_SESSION_TICKETS)
+extern int32 matrixSslHaveSessionTicketKeys(const sslKeys_t *keys);
+extern int32 matrixSslCopySessionTicketKey(const sslKeys_t *keys,
+    const unsigned char *name, psSessionTicketKeys_t *out);
 extern int32_t tls13DecryptTicket(ssl_t *ssl,
         psSessionTicketKeys_t *key,
         const unsigned char *ticket,
